@@ -104,6 +104,8 @@ WriteRef(r, g, k, v) ==
 (*   dk  node built with deep=True whose construction fails inside         *)
 (*   cu  node of a user constructor   cg  node of a user two-phase         *)
 (*   (generator) constructor          cm  node of a user multi-constructor *)
+(*   pt  node whose tag a user PATH resolver supplies (first child, key pk)*)
+(*   ir  plain scalar that a user IMPLICIT resolver types                  *)
 (***************************************************************************)
 Doc(n) ==
   CASE n = "plain"    -> [yaml |-> FALSE, tag |-> FALSE, items |-> <<"s", "s">>]
@@ -123,8 +125,9 @@ Doc(n) ==
     [] n = "ucall"    -> [yaml |-> FALSE, tag |-> FALSE, items |-> <<"cu", "s">>]
     [] n = "ugen"     -> [yaml |-> FALSE, tag |-> FALSE, items |-> <<"cg", "cu">>]
     [] n = "umulti"   -> [yaml |-> FALSE, tag |-> FALSE, items |-> <<"s", "cm">>]
+    [] n = "paths"    -> [yaml |-> FALSE, tag |-> FALSE, items |-> <<"pt", "ir", "s">>]
 AllDocs == {"plain", "scanerr", "parseerr", "comperr", "ctorerr", "yamldir", "tagdir", "usetag", "stdtag", "anchors",
-            "usealias", "rec", "pyobj", "deepfail", "ucall", "ugen", "umulti"}
+            "usealias", "rec", "pyobj", "deepfail", "ucall", "ugen", "umulti", "paths"}
 UserItems == {"cu", "cg", "cm"}
 
 (***************************************************************************)
@@ -135,6 +138,9 @@ UserItems == {"cu", "cg", "cm"}
 (*   ru  object of a user representer rm  object of a user multi-repr.     *)
 (*   nu  a string with a non-ASCII character                               *)
 (*   S   (alone) the value is a plain string, not a list                   *)
+(*   pv  a mapping {pk: ...} in first position (the path of the user path  *)
+(*   resolver)                        iv  a string the user implicit       *)
+(*   resolver matches                                                      *)
 (* `tags`: the call / the document declares  %TAG !e! <prefix>             *)
 (* `ver` : ... declares %YAML 1.1      `au`: the call passes allow_unicode *)
 (***************************************************************************)
@@ -151,8 +157,9 @@ Val(n) ==
     [] n = "umrepr"   -> [tags |-> FALSE, ver |-> FALSE, au |-> FALSE, items |-> <<"x1", "rm", "x1">>]
     [] n = "uni"      -> [tags |-> FALSE, ver |-> FALSE, au |-> FALSE, items |-> <<"nu", "s">>]
     [] n = "uniau"    -> [tags |-> FALSE, ver |-> FALSE, au |-> TRUE,  items |-> <<"nu", "s">>]
+    [] n = "pathsv"   -> [tags |-> FALSE, ver |-> FALSE, au |-> FALSE, items |-> <<"pv", "iv", "s">>]
     [] n = "scalarv"  -> [tags |-> FALSE, ver |-> FALSE, au |-> FALSE, items |-> <<"S">>]     \* the root IS a plain scalar
-AllVals == {"plainv", "shared", "shared2", "recv", "reprerr", "tagged", "usesve", "verv", "urepr", "umrepr", "uni", "uniau", "scalarv"}
+AllVals == {"plainv", "shared", "shared2", "recv", "reprerr", "tagged", "usesve", "verv", "urepr", "umrepr", "uni", "uniau", "scalarv", "pathsv"}
 ASSUME Docs \subseteq AllDocs /\ Vals \subseteq AllVals
 UserValItems == {"ru", "rm"}
 
@@ -176,7 +183,7 @@ NewLoader(op, cls, be, src, io, mode) ==
     anchors |-> {}, nodes |-> <<>>, held |-> <<>>,            \* Composer.anchors; the nodes of the current document
     constructed |-> <<>>, recursive |-> {}, sgens |-> <<>>, deep |-> FALSE, k |-> 0,   \* Constructor
     out |-> <<>>, end |-> "-", exc |-> "-", yielded |-> FALSE, disposed |-> FALSE, ninv |-> 0, injected |-> 0,
-    written |-> <<>> ]
+    written |-> <<>>, rdepth |-> 0 ]      \* rdepth: BaseResolver.resolver_exact_paths / resolver_prefix_paths (their common length)
 
 Raise(o, x) == [o EXCEPT !.exc = x, !.pc = "dispose"]
 Deliver(o, u) == [o EXCEPT !.out = Append(@, u), !.yielded = (o.mode = "gen")]
@@ -218,6 +225,8 @@ CtorOutcome(cls, it) ==
     [] it = "py" -> IF cls = "unsafe" THEN "pyobj" ELSE IF cls = "base" THEN "plain" ELSE "err"
     [] it = "rec" -> IF cls = "base" THEN "err" ELSE "reclist"
     [] it \in UserItems -> IF cls = "user" THEN "U" ELSE IF cls = "base" THEN "plain" ELSE "err"
+    [] it = "pt" -> IF cls = "user" THEN "PT" ELSE "plain"
+    [] it = "ir" -> IF cls = "user" THEN "IR" ELSE "plain"
     [] OTHER -> "plain"
 TwoPhase(cls, it) == (it = "rec" /\ cls # "base") \/ (it = "cg" /\ cls = "user")
 IsCallback(cls, it) == cls = "user" /\ it \in UserItems
@@ -228,7 +237,28 @@ LInvocation(o) ==
   \/ o.pc = "construct" /\ o.k < Len(o.held) /\ IsCallback(o.cls, o.held[o.k + 1].it)
   \/ o.pc = "drain" /\ o.sgens # <<>> /\ Head(o.sgens) = "cg"
 
-LStep(o, g, inj) ==
+(***************************************************************************)
+(* The path-resolver stacks (resolver.py:93-117).  A class that registered *)
+(* path resolvers (the user subclasses do) pushes one level in             *)
+(* descend_resolver and pops it in ascend_resolver around every node the   *)
+(* Composer composes / the Serializer serializes; a class without path     *)
+(* resolvers returns early.  The stacks belong to the object (created in   *)
+(* BaseResolver.__init__), so whatever an exception leaves on them dies    *)
+(* with the object.  Modelled: the level of the document's root, pushed at *)
+(* the document start and popped at its end; every node below the root     *)
+(* needs the depth to be exactly 1 (check_resolver_prefix indexes the      *)
+(* registered path with it: a wrong depth raises IndexError / mis-resolves)*)
+(***************************************************************************)
+HasPaths(cls) == cls = "user"
+RKey == "BaseResolver.resolver_exact_paths"
+RGet(o, g) == IF Mutation = "shared_resolver_stack" THEN (IF Has(g.other, RKey) THEN g.other[RKey] ELSE 0) ELSE o.rdepth
+RSet(o, g, n) ==
+  IF Mutation = "shared_resolver_stack"       \* wrong: the stacks are class attributes
+  THEN LET old == g.other
+       IN  [o |-> o, g |-> [g EXCEPT !.other = IF n = 0 THEN [k \in DOMAIN old \ {RKey} |-> old[k]] ELSE Put(old, RKey, n)]]
+  ELSE [o |-> [o EXCEPT !.rdepth = n], g |-> g]
+
+LStepCore(o, g, inj) ==
   LET same(o2) == [o |-> o2, g |-> g]
       lvl == Level(o.op)
   IN
@@ -303,6 +333,16 @@ LStep(o, g, inj) ==
          same([o EXCEPT !.disposed = TRUE, !.pc = "done", !.end = IF o.exc = "-" THEN "return" ELSE "raise:" \o o.exc])
     [] OTHER -> same(o)
 
+LStep(o, g, inj) ==
+  IF ~(HasPaths(o.cls) /\ Level(o.op) >= 3) THEN LStepCore(o, g, inj)
+  ELSE IF o.pc = "item" /\ o.i < Len(CurDoc(o).items) /\ ~NeedsRead(o) /\ RGet(o, g) # 1
+            /\ CurDoc(o).items[o.i + 1] \notin {"SE", "PE"}
+       THEN [o |-> Raise([o EXCEPT !.i = @ + 1, !.consumed = @ + 1], "IndexError"), g |-> g]      \* descend_resolver at a wrong depth
+  ELSE LET r == LStepCore(o, g, inj) IN
+       IF o.pc = "docstart" /\ r.o.pc = "item" /\ r.o.d = o.d + 1 THEN RSet(r.o, r.g, RGet(r.o, r.g) + 1)   \* descend_resolver(None, None)
+       ELSE IF o.pc = "docend" /\ RGet(r.o, r.g) > 0 THEN RSet(r.o, r.g, RGet(r.o, r.g) - 1)                 \* ascend_resolver()
+       ELSE r
+
 LActionName(o) ==
   CASE o.pc = "unstarted" -> "CreateLoader"
     [] o.pc \in {"docstart", "item"} /\ NeedsRead(o) -> "Read"
@@ -330,7 +370,7 @@ NewDumper(op, cls, be, vals, io) ==
     represented |-> {}, keeper |-> <<>>, aliasKey |-> "none", rnodes |-> <<>>, ri |-> 0,     \* Representer
     closed |-> "none", serialized |-> {}, sanchors |-> EmptyDict, lastAnchorId |-> 0,       \* Serializer
     pend |-> <<>>, evq |-> <<>>, tp |-> NoRef, wbuf |-> <<>>, au |-> Val(vals[1]).au,       \* Emitter: events, tag_prefixes, allow_unicode
-    written |-> <<>>, flushes |-> 0,                                                        \* what the stream received
+    written |-> <<>>, flushes |-> 0, rdepth |-> 0,                                          \* what the stream received; resolver stacks
     out |-> <<>>, end |-> "-", exc |-> "-", yielded |-> FALSE, disposed |-> FALSE, ninv |-> 0, injected |-> 0 ]
 
 Shared(it) == it \in {"x1", "x2", "rec"}
@@ -435,7 +475,7 @@ WriteTo(o, data, inj, nextpc) ==
      ELSE Raise([o EXCEPT !.injected = o.ninv + 1], "INJ")
   ELSE [o EXCEPT !.written = @ \o data, !.ninv = IF Streams(o) THEN @ + 1 ELSE @, !.pc = nextpc]
 
-DStep(o, g, inj) ==
+DStepCore(o, g, inj) ==
   LET same(o2) == [o |-> o2, g |-> g]
       lvl == Level(o.op)
   IN
@@ -504,6 +544,15 @@ DStep(o, g, inj) ==
          LET x == IF Mutation = "dispose_raises" /\ o.evq # <<>> /\ NeedMore(o.evq) THEN "EmitterError" ELSE o.exc
          IN  same([o EXCEPT !.disposed = TRUE, !.pc = "done", !.exc = x, !.end = IF x = "-" THEN "return" ELSE "raise:" \o x])
     [] OTHER -> same(o)
+
+\* Serializer.serialize_node descends / ascends around every node (serializer.py:84-110)
+DStep(o, g, inj) ==
+  IF ~(HasPaths(o.cls) /\ Level(o.op) >= 2) THEN DStepCore(o, g, inj)
+  ELSE IF o.pc = "serialize" /\ RGet(o, g) # 0 THEN [o |-> Raise(o, "IndexError"), g |-> g]
+  ELSE LET r == DStepCore(o, g, inj) IN
+       IF o.pc = "serialize" THEN RSet(r.o, r.g, RGet(r.o, r.g) + 1)
+       ELSE IF o.pc = "sreset" /\ RGet(r.o, r.g) > 0 THEN RSet(r.o, r.g, RGet(r.o, r.g) - 1)
+       ELSE r
 
 DActionName(o) ==
   CASE o.pc = "unstarted" -> "CreateDumper"
@@ -744,7 +793,8 @@ Lifetime ==
 \* per-document state is back to its initial value whenever a generator is suspended between two documents
 PerDocumentReset ==
   \A gi \in DOMAIN gens : LET o == gens[gi].o IN
-    (o.yielded /\ Level(o.op) >= 3) => (o.anchors = {} /\ o.constructed = <<>> /\ o.recursive = {} /\ o.sgens = <<>> /\ ~o.deep)
+    (o.yielded /\ Level(o.op) >= 3) => (o.anchors = {} /\ o.constructed = <<>> /\ o.recursive = {} /\ o.sgens = <<>> /\ ~o.deep
+                                        /\ o.rdepth = 0)
 
 \* MBT: every idle state is a test case
 Case == PrintT("CASE " \o ToString(hist))
